@@ -57,6 +57,7 @@ fn run(code: u16, ct: bool, close: bool, extra: &[(&str, &str)], body_len: usize
     let collides = |name: &str| extra.iter().any(|(n, _)| n.eq_ignore_ascii_case(name));
     let must_refuse = (ct && collides("content-type")) || collides("content-length");
     let mut w = RecWriter::new(); w.max_per_call = chunk;
+    if chunk == 7 { w.pending_every = 3; }   // short writes interleaved with Pending
     let r = std::panic::catch_unwind(std::panic::AssertUnwindSafe(|| block_on(write_http_response(&mut w, &resp, close))));
     let r = match r { Ok(r) => r, Err(_) => return Some(format!("{desc} expected=no-panic actual=panic")) };
     if must_refuse {
@@ -92,6 +93,7 @@ fn run_stream(lens: &[usize], chunk: usize, code: u16) -> Option<String> {
     }
     drop(sender);
     let mut w = RecWriter::new(); w.max_per_call = chunk;
+    if chunk == 7777 { w.pending_every = 2; }
     let r = std::panic::catch_unwind(std::panic::AssertUnwindSafe(|| block_on(write_http_response(&mut w, &resp, false))));
     let r = match r { Ok(r) => r, Err(_) => return Some(format!("{desc} expected=no-panic actual=panic")) };
     if r.is_err() { return Some(format!("{desc} expected=Ok actual={r:?}")); }
